@@ -18,4 +18,6 @@ def run(rep, fb, tier):
     from ..rules import pybind as _pb, pyrules as _pr2
     _pb.rule_py_bindings(rep)
     _pr2.rule_py_call_signature(rep)
+    from ..rules import lints as _lz
+    _lz.rule_virtual_unwrap_first(rep, fb)
     rep.units = fb.units + ["src/awkward/partition.py, _util.py, operations/structure.py (ast)"]
